@@ -2,25 +2,25 @@
 Model of message validation against a FIX XML dictionary
 (asyncfix/protocol/schema.py: `FIXSchema.validate`, `FIXSchema._validate_header`,
 `SchemaGroup.validate_group`), as the code is NOW (required groups are checked at message
-level and inside group items).
+level and inside group items; header and trailer members are validated like message members;
+every rejection is a `FIXMessageError`).
 
 What is abstracted
 * A dictionary after parsing (`Schema`): the declared fields, the flattened member list of the
-  header, of the trailer (the library never reads `<trailer>`; it is part of the abstract
-  dictionary because the *specification* mentions it) and of every message type; a member is a
+  header, of the trailer and of every message type; a member is a
   field or a repeating group with its own member list.  Members refer to fields by TAG.  The
   library keys members by field NAME (`SchemaField.__hash__/__eq__`) and group bookkeeping by
   tag; both views coincide when tags and names are in bijection, which is part of `schemaWF`.
 * Value validation (`SchemaField.validate_value`) is the parameter `vv : tag → value → Bool`
-  (property C19 / Model/Lexical.lean is about it); only its two `assert`s are modelled here
-  because they decide the *exception kind*: non-string value and empty string.
+  (property C19 / Model/Lexical.lean is about it); only its guard "value must be a non-empty
+  string" is modelled here, because it concerns non-string objects and `""`.
 * A message (`Msg`): message type + ordered nodes; a node is a plain string value, a
   non-string value (an exception class stored by `FIXContainer.set`, as the decoder does for
   `RepeatingTagError`) or a repeating group = list of items = list of nodes.  Python dicts have
   distinct keys; nothing below needs that, so it is not demanded.
 
 Outcome kinds: `msgError` = `FIXMessageError` or a subclass (`TagNotFoundError`,
-`RepeatingTagError`), `assertion` = `AssertionError`.  No other exception type can leave
+`RepeatingTagError`).  After the repairs 4e42d87 / 732dc8f no other exception type can leave
 `validate` for messages of this shape (see notes/report_sch.md, "exception census").
 -/
 namespace AsyncFix.Model.Schema
@@ -84,7 +84,10 @@ structure Msg where
   tags : List Node
   deriving Repr
 
-inductive Kind | msgError | assertion
+/-- `msgError` = `FIXMessageError` or a subclass; `foreign` = any other exception type.  The
+    model never produces `foreign` (theorem `validate_error_kind`); the harness maps every
+    exception that is not a `FIXMessageError` to a reply the model cannot give. -/
+inductive Kind | msgError | foreign
   deriving Repr, DecidableEq
 
 inductive Outcome | ok | raised (k : Kind)
@@ -120,17 +123,10 @@ def lookupMsg : List (String × List Member) → String → Option (List Member)
   | [], _ => none
   | (k, v) :: rest, t => if k = t then some v else lookupMsg rest t
 
-/-- `SchemaField.validate_value(value)` for a string: the `assert value` and the verdict -/
+/-- `SchemaField.validate_value(value)` for a string: empty ⇒ FIXMessageError, else the verdict -/
 def strOutcome (vv : Tag → String → Bool) (t : Tag) (s : String) : Outcome :=
-  if s = "" then .raised .assertion
+  if s = "" then .raised .msgError
   else if vv t s then .ok else .raised .msgError
-
-/-- `field.validate_value(v)` with whatever object the container holds under the tag
-    (`assert isinstance(value, str)`) -/
-def valueOutcome (vv : Tag → String → Bool) (t : Tag) : Node → Outcome
-  | .plain _ s => strOutcome vv t s
-  | .cls _ _ => .raised .assertion
-  | .group _ _ => .raised .assertion
 
 /-- the first loop of `validate`: every required member (field or group) is present -/
 def checkRequired (ns : List Node) : List Member → Outcome
@@ -139,7 +135,9 @@ def checkRequired (ns : List Node) : List Member → Outcome
     if m.req && !hasTag ns m.tag then .raised .msgError else checkRequired ns rest
 
 /-- `_validate_header`: required header FIELDS are present, `msg[tag]` is fetched
-    (`FIXContainer.get` raises for groups and for two marker classes) and value-validated -/
+    (`FIXContainer.get` raises `FIXMessageError` for groups, `TagNotFoundError` /
+    `RepeatingTagError` for those two marker classes) and value-validated (any other
+    non-string ⇒ FIXMessageError) -/
 def validateHeader (vv : Tag → String → Bool) (ns : List Node) : List Member → Outcome
   | [] => .ok
   | .group _ _ _ :: rest => validateHeader vv ns rest
@@ -148,9 +146,8 @@ def validateHeader (vv : Tag → String → Bool) (ns : List Node) : List Member
     else match getNode ns t with
       | none => .raised .msgError
       | some (.group _ _) => .raised .msgError
-      | some (.cls _ .notFound) => .raised .msgError
-      | some (.cls _ .repeating) => .raised .msgError
-      | some n => (valueOutcome vv t n).andThen (validateHeader vv ns rest)
+      | some (.cls _ _) => .raised .msgError
+      | some (.plain _ s) => (strOutcome vv t s).andThen (validateHeader vv ns rest)
 
 mutual
 /-- `SchemaGroup.validate_group(groups)`: loop over the items -/
@@ -173,39 +170,44 @@ def validateItemLoop (vv : Tag → String → Bool) (gm : List Member) (prev : N
       if prev > i then .raised .msgError             -- incorrect tag order
       else (validateMember vv mem n).andThen (validateItemLoop vv gm i rest)
 
-/-- body of the item loop after the order check -/
+/-- the kind and value checks of one node against its dictionary member; the same code shape
+    in `validate` (message level) and in `validate_group` (item level):
+    field: `is_group` ⇒ "must be a tag, got group", else `validate_value`;
+    group: `not is_group` ⇒ "must be a group", else `validate_group` -/
 def validateMember (vv : Tag → String → Bool) (mem : Member) : Node → Outcome
   | .plain _ s =>
     match mem with
     | .field ft _ => strOutcome vv ft s
     | .group _ _ _ => .raised .msgError              -- must be a group
-  | .cls _ _ =>
-    match mem with
-    | .field _ _ => .raised .assertion               -- validate_value(<class>)
-    | .group _ _ _ => .raised .msgError
+  | .cls _ _ => .raised .msgError                    -- field: value must be a string; group: must be a group
   | .group _ items =>
     match mem with
-    | .field _ _ => .raised .assertion               -- validate_value(<group container>)
+    | .field _ _ => .raised .msgError                -- must be a tag, got group
     | .group _ _ gm' => validateGroup vv gm' items
 end
+
+/-- `field in self._header` / `elif field in self._trailer` / `elif field not in schema_msg` -/
+def memberFor (sch : Schema) (ms : List Member) (t : Tag) : Option Member :=
+  match lookupMem sch.header t with
+  | some (_, m) => some m
+  | none =>
+    match lookupMem sch.trailer t with
+    | some (_, m) => some m
+    | none =>
+      match lookupMem ms t with
+      | some (_, m) => some m
+      | none => none
 
 /-- third loop of `validate`: `for tag, val in msg.tags.items()` -/
 def checkEntries (vv : Tag → String → Bool) (sch : Schema) (ms : List Member) :
     List Node → Outcome
   | [] => .ok
   | n :: rest =>
-    if n.tag = "10" then checkEntries vv sch ms rest
-    else if !sch.knownTag n.tag then .raised .msgError
-    else if (memberTags sch.header).contains n.tag then checkEntries vv sch ms rest
-    else match lookupMem ms n.tag with
-      | none => .raised .msgError                    -- not allowed in this message
-      | some (_, .field ft _) =>
-        if n.isGroup then .raised .msgError          -- must be a tag, got group
-        else (valueOutcome vv ft n).andThen (checkEntries vv sch ms rest)
-      | some (_, .group _ _ gm) =>
-        match n with
-        | .group _ items => (validateGroup vv gm items).andThen (checkEntries vv sch ms rest)
-        | _ => .raised .msgError                     -- must be a group
+    if n.tag = "10" then checkEntries vv sch ms rest          -- "TODO: check the checksum"
+    else if !sch.knownTag n.tag then .raised .msgError        -- not in schema
+    else match memberFor sch ms n.tag with
+      | none => .raised .msgError                             -- not allowed in this message
+      | some mem => (validateMember vv mem n).andThen (checkEntries vv sch ms rest)
 
 /-- `FIXSchema.validate(msg)` -/
 def validate (vv : Tag → String → Bool) (sch : Schema) (m : Msg) : Outcome :=
@@ -246,10 +248,19 @@ def nodupStr : List String → Bool
   | [] => true
   | x :: xs => !xs.contains x && nodupStr xs
 
+/-- Well-formedness of a parsed dictionary.
+* field tags and field names are in bijection (the library keys members by name, items by tag);
+* message types are distinct;
+* for every message type, header ++ trailer ++ message members have pairwise distinct tags at
+  every level, are declared fields, and group counters pass `SchemaSet.__init__`;
+* `10` (exempt from validation) is not a header tag, and the header has no *required group*
+  (`_validate_header` looks at required fields only). -/
 def schemaWF (sch : Schema) : Bool :=
   nodupStr (sch.fields.map (·.tag)) && nodupStr (sch.fields.map (·.name))
-    && membersWF sch sch.header && membersWF sch sch.trailer
     && nodupStr (sch.messages.map (·.1))
-    && sch.messages.all (fun p => membersWF sch p.2)
+    && membersWF sch (sch.header ++ sch.trailer)
+    && sch.messages.all (fun p => membersWF sch (sch.header ++ sch.trailer ++ p.2))
+    && !(memberTags sch.header).contains "10"
+    && sch.header.all (fun m => m.isField || !m.req)
 
 end AsyncFix.Model.Schema
